@@ -9,17 +9,6 @@ func init() {
 	vfHarnesses["VerifH_proto_wire"] = VerifH_proto_wire
 }
 
-// vfCapMenu picks the capacity of the caller's buffer: exact fits, one spare byte, roomy.
-func vfCapMenu() int {
-	switch vfChoice(3) {
-	case 0:
-		return 0
-	case 1:
-		return 1
-	}
-	return 64
-}
-
 // refVarint decodes a protobuf varint per the wire spec: base-128 little endian, at most 10 bytes,
 // the 10th byte at most 1. n = bytes consumed; n == 0: need more input; n < 0: malformed.
 func refVarint(b []byte) (v uint64, n int) {
